@@ -28,6 +28,7 @@ BOARD = "weechess-core/src/board.rs"
 PIECE = "weechess-core/src/piece.rs"
 MOVES = "weechess-core/src/moves.rs"
 STATE = "weechess-core/src/state.rs"
+UCI = "weechess-engine/src/uci.rs"
 
 # ----------------------------------------------------------------------------------------------------------------------
 # THE TABLE.  file, path of block headers (token sequences), Self type (Rust syntax), functions {rust name: lean name}.
@@ -84,6 +85,16 @@ CONTAINERS = [
          fns={"into_notation": "Lan.into_notation_slice"}, complete=True, mod="lan"),
 ]
 
+# closures translated as functions.  `anchor`: the token sequence that ends with the closure's parameter list (exactly one
+# occurrence in the file), followed by the `{ .. }` body and `closer`.  The parameter types are STATED here (a closure
+# parameter carries no type in the text); the result type `Option<T>` is translated with `None` = `TRes.err`
+# (`?` on an Option, `.ok()?` on a Result<_, _>, `return None`, a final `Some(v)`).
+CLOSURES = [
+    dict(file=UCI, anchor=H("let move_details: Vec<MoveQuery> = moves.into_iter().filter_map(|m|"), closer=H(").collect();"),
+         params=[("m", "&str")], ret="Option<MoveQuery>", lean="uci.parse_move_token",
+         note="uci.rs `position … moves`: the `filter_map` closure over `moves: &[&str]` (parameter `m: &&str`, stated in the table)"),
+]
+
 # every `fn` of notation.rs must be translated or named here (a new fn is a broken tie)
 NOTATION_SKIP = {
     "deref": "generic plumbing `Notation<T, F>` (Deref)",
@@ -108,6 +119,9 @@ TEXT_CHECKS = [
     (STATE, r"pub struct Clock \{\s*pub halfmove_clock: usize,\s*pub fullmove_number: usize,\s*\}", "struct Clock"),
     (STATE, r"pub struct CastleRights \{\s*pub kingside: bool,\s*pub queenside: bool,\s*\}", "struct CastleRights"),
     (BOARD, r"#\[derive\([^)]*\bDefault\b[^)]*\)\]\s*pub struct BitBoard\(u64\);", "BitBoard derives Default (= 0)"),
+    (UCI, r"let parts: Vec<&str> = cmd\.split_ascii_whitespace\(\)\.collect\(\);\s*match parts\.split_first\(\) \{", "uci.rs: the command line is split into `&str` words (`parts: Vec<&str>`, matched by `split_first`)"),
+    (UCI, r"Some\(\(&\"position\", args\)\) => \{", "uci.rs: `args` of the `position` command are the remaining words"),
+    (UCI, r"let \(pos, moves\) = args\s*\.split_once\(\|arg\| arg == &\"moves\"\)\s*\.unwrap_or\(\(args, &\[\]\)\);", "uci.rs: `moves` is the slice of words after `moves`"),
 ]
 
 INT_LEAN = {"u8": "UInt8", "u32": "UInt32", "u64": "UInt64", "usize": "UInt64", "i8": "Int8", "i32": "Int32"}
@@ -423,6 +437,12 @@ class BodyParser(TyParser):
                 op = self.eat().s
                 rhs = self.expr(nostruct=nostruct)
                 return ("assign", op, lhs, rhs)
+            if self.peek() == ".." and lhs[0] == "int":
+                self.eat()
+                rhs = self.expr(False, nostruct, 1)
+                if rhs[0] != "int":
+                    self.err("range: only `<int literal>..<int literal>`")
+                return ("range", lhs, rhs)
             if self.peek() in ("^=", "*=", "/=", "%=", "<<=", ">>=", "..", "..="):
                 self.err(f"operator `{self.peek()}` not supported here")
             return lhs
@@ -696,6 +716,21 @@ def scan_items_tolerant(toks, lo, hi, fname):
             attrs = []
         i += 1
     return fns, consts
+
+
+def lex_prefix(text):
+    """tokens of the longest prefix of `text` the stage-1 lexer accepts (files of the engine crate use literals it does not know)"""
+    out, i, line = [], 0, 1
+    while i < len(text):
+        m = R.TOK.match(text, i)
+        if not m:
+            break
+        k, s0 = m.lastgroup, m.group(0)
+        if k not in ("ws", "lc", "bc"):
+            out.append(R.Tok(k, s0, line))
+        line += s0.count("\n")
+        i = m.end()
+    return out
 
 
 class Entry:
@@ -1081,6 +1116,10 @@ class Text:
             t = self.prune(t)
             if t[0] == "fmtresult":
                 return "()", ("unit",)
+            if getattr(self, "opt_fn", False) and t[0] == "Option":
+                return self.bind(env, out, ind, f"(TRes.okOr {P(a)})"), t[1]
+            if getattr(self, "opt_fn", False) and t[0] == "OkOpt":
+                return self.bind(env, out, ind, a), t[1]
             if t[0] != "Result":
                 self.err(0, f"`?` on a value of type {show(t)} (only Result<_, ()>; use .ok_or(()) on an Option)")
             return self.bind(env, out, ind, a), t[1]
@@ -1381,6 +1420,10 @@ class Text:
             if name == "len":
                 noargs()
                 return f"(str.len {P(a)})", ("usize",)
+            if name == "get" and len(args) == 1 and args[0][0] == "range":
+                lo, _ = self.int_lit(args[0][1][1], ("usize",), line)
+                hi, _ = self.int_lit(args[0][2][1], ("usize",), line)
+                return f"(str.get_range {P(a)} {lo} {hi})", ("Option", ("str",))
             if name == "as_bytes":
                 noargs()
                 if recv[0] != "str" or any(ord(c) > 127 for c in recv[1]):
@@ -1449,6 +1492,8 @@ class Text:
                 f, rt = self.closure(args[0], env, [el], ind)
                 return self.bind(env, out, ind, f"Option.mapT {P(a)} {f}"), ("Option", rt)
         if h == "Result":
+            if name == "ok" and not args and getattr(self, "opt_fn", False):
+                return a, ("OkOpt", t[1])       # only `?` knows this type: `.ok()?` = `Err(_)` becomes `None`
             if name == "map_err" and len(args) == 1:
                 c = args[0]
                 if c[0] != "closure" or c[2][0] != "unit" or len(c[1]) != 1 or c[1][0][0] != "pwild":
@@ -1693,6 +1738,8 @@ class Text:
         return e if e[0] == "block" else ("block", [], e)
 
     def is_err(self, e):
+        if getattr(self, "opt_fn", False) and e[0] == "path" and e[1] == ["None"]:
+            return True
         return e[0] == "call" and e[1][0] == "path" and e[1][1] == ["Err"] and len(e[2]) == 1 and e[2][0][0] == "unit"
 
     def finish(self, tail, env, out, ind, mode):
@@ -1727,7 +1774,8 @@ class Text:
             if self.is_err(tail):
                 out.append(f"{ind}TRes.err")
                 return
-            if k == "call" and tail[1][0] == "path" and tail[1][1] == ["Ok"] and len(tail[2]) == 1:
+            if k == "call" and tail[1][0] == "path" and tail[1][1] == (["Some"] if getattr(self, "opt_fn", False) else ["Ok"]) \
+                    and len(tail[2]) == 1:
                 a, t = self.ex(tail[2][0], env, out, ind, self.cur_ret[1])
                 if not self.unify(t, self.cur_ret[1]):
                     self.err(0, f"`Ok(..)`: expected {show(self.cur_ret[1])}, found {show(self.prune(t))}")
@@ -1996,6 +2044,12 @@ class Text:
     def collect(self):
         self.pending = []
         for rel, pat, what in TEXT_CHECKS:
+            if rel not in self.src and rel in {c["file"] for c in CLOSURES}:
+                path = os.path.join(self.repo, rel)
+                if not os.path.exists(path):
+                    fail(f"{rel}: file not found")
+                with open(path) as f:
+                    self.src[rel] = f.read()        # text only: the stage-1 lexer does not read every file of the engine crate
             text = re.sub(r"//[^\n]*", "", self.src.get(rel) or (self.load(rel) and self.src[rel]))
             if not re.search(pat, text):
                 fail(f"{rel}: expected declaration not found: {what}")
@@ -2067,6 +2121,36 @@ class Text:
                 if has_self and mp == 0:
                     self.mut_names.add(n)
                 self.pending.append((cont, raw, ent, self_ty, ret, mut))
+        for cl in CLOSURES:
+            anchor = cl["anchor"]
+            path = os.path.join(self.repo, cl["file"])
+            if not os.path.exists(path):
+                fail(f"{cl['file']}: file not found")
+            with open(path) as f:
+                text = f.read()
+            self.src[cl["file"]] = text
+            if len(re.findall(r"\s*".join(re.escape(a) for a in anchor), text)) != 1:
+                fail(f"{cl['file']}: closure `{cl['lean']}`: expected exactly one occurrence of `{' '.join(anchor)}` in the text")
+            toks = lex_prefix(text)         # the file as far as the stage-1 lexer reads it (the closure must lie in that part)
+            hits = [i for i in range(len(toks) - len(anchor)) if [t.s for t in toks[i:i + len(anchor)]] == anchor]
+            if len(hits) != 1:
+                fail(f"{cl['file']}: closure `{cl['lean']}`: expected exactly one occurrence of `{' '.join(anchor)}`, found {len(hits)}")
+            j = hits[0] + len(anchor)
+            if toks[j].s != "{":
+                fail(f"{cl['file']}:{toks[j].line}: closure `{cl['lean']}`: the body must be a block")
+            bc = match_close(toks, j, "{", "}")
+            if [t.s for t in toks[bc + 1:bc + 1 + len(cl["closer"])]] != cl["closer"]:
+                fail(f"{cl['file']}:{toks[bc].line}: closure `{cl['lean']}`: expected `{' '.join(cl['closer'])}` after the body")
+            raw = R.RawFn(cl["lean"], [], [], toks[j:bc + 1], toks[hits[0]].line, (j, bc))
+            raw.generic = False
+            params = [(n, parse_ty_str(t)) for n, t in cl["params"]]
+            rt = parse_ty_str(cl["ret"])
+            if rt[0] != "Option":
+                fail(f"closure `{cl['lean']}`: only closures returning Option<_>")
+            ret = ("Result", rt[1])
+            ent = Entry(cl["lean"], params, ret, "tres", None, False, rust="closure " + " ".join(anchor) + " { .. }")
+            self.notes.append(cl["note"])
+            self.pending.append((dict(file=cl["file"], mod=None, opt=True), raw, ent, None, ret, None))
         # every fn of notation.rs is accounted for
         toks = self.load(NOTATION)
         found = {}
@@ -2082,6 +2166,7 @@ class Text:
         self.cur_file, self.cur_fn, self.cur_mod = cont["file"], raw.name, cont.get("mod")
         self.self_ty, self.cur_ret, self.cur_mut = self_ty, ret, mut
         self.uses_regex = False
+        self.opt_fn = bool(cont.get("opt"))
         self.counts = []
         self.ntmp = 0
         p = BodyParser(raw.body, self_ty, cont["file"])
@@ -2108,7 +2193,7 @@ class Text:
         fn_texts = []
         for item in self.pending:
             fn_texts.append(self.emit_fn(*item))
-        files = sorted({c["file"] for c in CONTAINERS})
+        files = sorted({c["file"] for c in CONTAINERS} | {c["file"] for c in CLOSURES})
         out = ["-- GENERATED by tools/rs2lean_text.py from " + ", ".join(files) + "; do not edit.",
                "import Wee.Gen.GenMoves",
                "/-!",
@@ -2234,6 +2319,15 @@ def str.ascii_bytes (s : List Char) : List UInt8 := s.map (fun c => c.toNat.toUI
 def char.as_u8 (c : Char) : UInt8 := c.toNat.toUInt8
 /-- `b as char` -/
 def u8.as_char (b : UInt8) : Char := Char.ofNat b.toNat
+/-- `s.get(a..b)` (`str::get::<Range<usize>>`): the sub-slice of the BYTES `a..b` of the UTF-8 encoding; `None` when the range
+is out of bounds or an end is not on a `char` boundary -/
+def str.get_range (s : List Char) (a b : UInt64) : Option (List Char) :=
+  let bytes := (String.ofList s).toUTF8
+  if b.toNat > bytes.size ∨ a.toNat > b.toNat then Option.none
+  else
+    let isBoundary (i : Nat) : Bool := i == bytes.size || (bytes[i]!.toNat &&& 0xC0) != 0x80
+    if !(isBoundary a.toNat && isBoundary b.toNat) then Option.none
+    else (String.fromUTF8? (bytes.extract a.toNat b.toNat)).map String.toList
 /-- `c.to_digit(10)`: ASCII digits only -/
 def char.to_digit10 (c : Char) : Option UInt32 := if c.isDigit then Option.some (c.toNat - 48).toUInt32 else Option.none
 /-- `Display` of the integer types: decimal, `-` for negative values -/
